@@ -529,6 +529,7 @@ func runWide(c *runner.Ctx, idx int) {
 		trak.AddChild(mdia)
 	}) && trak != nil {
 		k.checkTrack(nil, trak, nil)
+		k.editPasses(trak)
 	}
 	evals += k.n
 
@@ -536,6 +537,7 @@ func runWide(c *runner.Ctx, idx int) {
 	kb := &checker{c: c, path: "builder", label: label, gt: gt, ref: tr, small: n <= 48, extra: extra}
 	if _, btrak := kb.build(nil); btrak != nil {
 		kb.checkTrack(nil, btrak, nil)
+		kb.editPasses(btrak)
 	}
 	evals += kb.n
 	c.Evals(evals)
